@@ -22,8 +22,9 @@ Layers
   `ggsw_encrypt_sk` produces: row `r`, column `c` carries `m2·σ_c` at limb `(r+1)·dsize − 1`) the
   first sum is the gadget recomposition of the digits, i.e. the phase of the decomposed GLWE minus
   the dropped limbs.
-* defect (`epInternal_stale_counterexample`): for `dsize ≥ 3` the result of
-  `glwe_external_product_internal` depends on the prior content of `res_dft`; `Cmux` does not zero it.
+* repaired defect (`epInternal_stale_witness_partial`): until poulpy d3c2e96 the result of
+  `glwe_external_product_internal` depended on the prior content of `res_dft` for `dsize ≥ 3`
+  (`Cmux` does not zero it); the former counterexample is now the regression instance.
 -/
 
 namespace C04
@@ -121,30 +122,29 @@ example : polyAdd (sumR 2 (fun q => Hal.negMul ([[3, -1]].getD q []) ([[1, 5]].g
     (fun q hq => by have h0 : q = 0 := (by omega); subst h0; decide) (by decide)
 
 /-
-FULL STATEMENT (not proved): for every GGSW `g` (any `dsize`), every input `a` and every prior
-content `res0 res0'` / `tmp0 tmp0'` of the two scratch DFT buffers,
+FULL STATEMENT (not proved in general): for every GGSW `g` (any `dsize`), every input `a` and every
+prior content `res0 res0'` / `tmp0 tmp0'` of the two scratch DFT buffers,
 `epInternal a g res0 tmp0 = epInternal a g res0' tmp0'`  (the result is determined by its inputs).
-It is FALSE of the code for `dsize ≥ 3`: pass `di = 0` shrinks `res_dft` to `size − (dsize − 2)`
-limbs, so its last `dsize − 2` limbs are never written before the passes `di ≥ 1` add into them.
-`glwe_external_product` zeroes `res_dft` first (`res0 = 0` in the model); `Cmux::cmux`,
-`cmux_assign`, `cmux_assign_neg` and `Cswap::cswap` do not.
+History: this was FALSE of the code for `dsize ≥ 3` until poulpy d3c2e96 (pass `di = 0` shrank
+`res_dft` to `size − (dsize − 2)` limbs and the later passes added into the never-written tail;
+`Cmux`/`Cswap` do not zero `res_dft`).  This slice proved the negation on the witness below and
+reproduced it on all four back ends; the code now zeroes the skipped limbs (`zeroTail`), the model
+follows, and the former witness is the regression example.  The general statement needs the
+`Buf.setFlat`/`Buf.act` plumbing lemmas (`_partial`: instance only).
 -/
 
-/-- the witness: `n = 1`, rank 0 … 1 column would hide nothing, so rank 1, `dsize = 3`, GGSW of 4 limbs -/
+/-- the former witness: `n = 1`, rank 1, `dsize = 3`, GGSW of 4 limbs -/
 def staleG : GGSW :=
   { base2k := 4, n := 1, rank := 1, dsize := 3, dnum := 1, size := 4,
     cells := [[[[1], [0], [0], [0]], [[0], [0], [0], [0]]], [[[0], [0], [0], [0]], [[1], [0], [0], [0]]]] }
 
-theorem epInternal_stale_counterexample :
-    ¬ (∀ res0 res0' : List Col,
-        epInternal [[[1], [2], [3]], [[0], [1], [0]]] staleG res0 (zeroCols 1 2 4)
-          = epInternal [[[1], [2], [3]], [[0], [1], [0]]] staleG res0' (zeroCols 1 2 4)) := by
-  intro h
-  have := h (zeroCols 1 2 4) [[[0], [0], [0], [7]], [[0], [0], [0], [0]]]
-  revert this
+/-- on the former witness the result no longer depends on the stale content of `res_dft` … -/
+theorem epInternal_stale_witness_partial :
+    epInternal [[[1], [2], [3]], [[0], [1], [0]]] staleG [[[0], [0], [0], [7]], [[0], [0], [0], [0]]] (zeroCols 1 2 4)
+      = epInternal [[[1], [2], [3]], [[0], [1], [0]]] staleG (zeroCols 1 2 4) (zeroCols 1 2 4) := by
   decide
 
-/-- with `res0 = 0` (what `glwe_external_product` does) the same instance gives the expected product -/
+/-- … and is the expected product -/
 example : epInternal [[[1], [2], [3]], [[0], [1], [0]]] staleG (zeroCols 1 2 4) (zeroCols 1 2 4)
     = [[[3], [0], [0], [0]], [[0], [0], [0], [0]]] := by decide
 
